@@ -173,7 +173,7 @@ I == P("i")
 S == P("s")
 B == P("b")
 RAB == Rec(<<"a", "b">>, <<I, S>>)
-RN  == Rec(<<"a", "c">>, <<Rec(<<"b">>, <<I>>), S>>)
+RN  == Rec(<<"a", "c">>, <<Rec(<<"b", "d">>, <<I, S>>), S>>)
 UIS == Un(<<I, S>>)
 
 Types == CASE Family = "prim"  -> <<I, B, S, P("e")>>
@@ -187,14 +187,15 @@ Types == CASE Family = "prim"  -> <<I, B, S, P("e")>>
 \* kind, null runs at start/middle/end, empty containers, null at every level).
 ab == <<"a", "b">>
 ac == <<"a", "c">>
+bd == <<"b", "d">>
 Alpha ==
   CASE Family = "prim" ->
          << {V(0), V(1), V(2), NP}, {V(0), V(1), NP}, {V(0), NP}, {V(0), V(1)} >>
     [] Family = "rec" ->
          << {NR(ab), R(ab, <<V(0), V(0)>>), R(ab, <<V(1), NP>>), R(ab, <<NP, V(0)>>), R(ab, <<V(2), V(1)>>)}, {V(0), NP} >>
     [] Family = "nest" ->
-         << {NR(ac), R(ac, <<NR(<<"b">>), V(0)>>), R(ac, <<R(<<"b">>, <<V(0)>>), NP>>),
-             R(ac, <<R(<<"b">>, <<NP>>), V(0)>>), R(ac, <<R(<<"b">>, <<V(1)>>), V(0)>>)},
+         << {NR(ac), R(ac, <<NR(bd), V(0)>>), R(ac, <<R(bd, <<V(0), V(0)>>), NP>>),
+             R(ac, <<R(bd, <<NP, V(0)>>), V(0)>>), R(ac, <<R(bd, <<V(1), NP>>), V(0)>>)},
             {NA, A(<<>>), A(<<V(0)>>), A(<<V(1), NP, V(2)>>)} >>
     [] Family = "arr" ->
          << {NR(<<"r", "c">>), R(<<"r", "c">>, <<NA, V(0)>>), R(<<"r", "c">>, <<A(<<>>), NP>>),
@@ -213,7 +214,7 @@ Alpha ==
 \* Projections tried (sets of field paths, in the order given to the cache).
 Projections ==
   CASE Family = "rec"   -> { << <<"a">> >>, << <<"b">> >>, << <<"a">>, <<"b">> >>, << <<"b">>, <<"a">> >>, << <<"x">> >>, << <<"a", "z">> >> }
-    [] Family = "nest"  -> { << <<"a", "b">> >>, << <<"c">>, <<"a", "b">> >>, << <<"a">> >>, << <<"a", "x">>, <<"c">> >>, << <<"a", "b", "z">> >> }
+    [] Family = "nest"  -> { << <<"a", "b">> >>, << <<"c">>, <<"a", "b">> >>, << <<"a">> >>, << <<"a", "x">>, <<"c">> >>, << <<"a", "b", "z">> >>, << <<"a", "d">>, <<"a", "b">> >> }
     [] Family = "arr"   -> { << <<"c">> >>, << <<"r">> >>, << <<"r">>, <<"c">> >>, << <<"r", "a">> >> }
     [] Family = "union" -> { << <<"b">> >>, << <<"u">> >>, << <<"u", "x">>, <<"b">> >> }
     [] Family = "wrap"  -> { << <<"a">> >>, << <<"e">> >>, << <<"a">>, <<"e">> >> }
